@@ -354,8 +354,41 @@ def rule_j(R, ctx):
              "end of the text" % arm, css[0].loc())
 
 
+def rule_k(R, ctx, rid="C20.k"):
+    import json as _json
+    Y = ctx.yrs
+    R.rule(rid, "R-GUARD cut before marking: LinkSource::materialize marks (set_linked + linked_by) a whole stored item only when "
+                "the visited slice covers it — the read of `slice.ptr` sits under `slice.adjacent()` alone — and otherwise marks "
+                "what Store::materialize(slice) cut out, under `!adjacent()` alone; live or deleted makes no difference (a "
+                "tombstone that straddles a quotation boundary still has to be cut, or the link covers clocks outside the range "
+                "and unquote / later edits treat the neighbouring text as quoted)")
+    fn = Y.fn("yrs::types::weak::LinkSource::materialize")
+    v = FnView(fn)
+    reads = [(i, st) for i, j, st in fn.stmts() if "ItemSlice.ptr" in _json.dumps(st["rv"])]
+    R.floor(rid, "whole-item reads of a slice in LinkSource::materialize", len(reads), 1)
+
+    def adj(l, pol):
+        return isinstance(l.term, tuple) and l.term[0] == "call" and l.term[1].endswith("ItemSlice::adjacent") and l.polarity is pol
+    for k, (i, st) in enumerate(reads):
+        ok = any(adj(l, True) for l in v.guards(i))
+        R.ob(rid, fn, "whole-item#%d" % k, ok, "slice.ptr is used as the item only under adjacent(): %s" % ok +
+             ("" if ok else " — guards %s" % [l.desc for l in v.guards(i)][-2:]))
+    cuts = fn.calls_to("yrs::store::Store::materialize")
+    R.floor(rid, "Store::materialize calls in LinkSource::materialize", len(cuts), 1)
+    sl = [l for l in v.lits if isinstance(l.term, tuple) and l.term[0] == "call" and l.term[1].endswith("ItemSlice::adjacent")]
+    for cs, site in ordinal_sites(cuts):
+        g = v.guards(cs.bb)
+        ok = any(adj(l, False) for l in g)
+        # nothing but the loop's own conditions and adjacent() decides between cutting and not cutting
+        after = [l for l in g if sl and F.CFG(fn).dominates(sl[0].bb, l.bb) and l.bb != sl[0].bb] if sl else []
+        R.ob(rid, fn, site, ok and not after,
+             "every slice that is not adjacent is cut" if ok and not after else
+             "the cut is also conditioned on %s" % [l.desc for l in after] if ok else "the cut is not under !adjacent()", cs.loc())
+
+
 def check(ctx, R):
     from . import wire_rules
+    R.run("C20.k", rule_k, ctx)
     R.run("C20.a", rule_a, ctx)
     R.run("C20.b", rule_b, ctx)
     R.run("C20.c", rule_c, ctx)
